@@ -1476,8 +1476,10 @@ RCP<const Set> Complement::set_intersection(const RCP<const Set> &o) const
 
 RCP<const Set> Complement::set_complement(const RCP<const Set> &o) const
 {
-    auto newuniv = SymEngine::set_union({o, universe_});
-    return container_->set_complement(newuniv);
+    // o \ (U \ C) = (o \ U) u (o n C)
+    auto outside = universe_->set_complement(o);
+    auto inside = SymEngine::set_intersection({o, container_});
+    return SymEngine::set_union({outside, inside});
 }
 
 ConditionSet::ConditionSet(const RCP<const Basic> &sym,
